@@ -34,10 +34,10 @@ class IdToAsm(Case):
         d = self.d
         instr = {"id": "X_0", "disasm": d, "inpt_sk": [], "outpt_sk": ["s(1)"]}
         v = None
-        if d in ("PUSH", "PUSH data", "PUSHIMMUTABLE"):
+        if d in HEX_OPERAND:
             v = H.word('value')
             instr["value"] = [v]
-        elif d in ("PUSH [tag]", "PUSH #[$]", "PUSH [$]", "PUSHLIB"):
+        elif d in ("PUSH [tag]", "PUSHLIB"):
             v = H.int('value', 0, 2 ** 64)
             instr["value"] = [v]
         elif d == "PUSH0":
@@ -51,7 +51,7 @@ class IdToAsm(Case):
             H.check('PUSH0-instruction=>PUSH-item-with-value-0', it.disasm == "PUSH" and it.value == "0")
             return
         H.check('item-name=instruction-name', it.disasm == d)
-        if d in ("PUSH", "PUSH data", "PUSHIMMUTABLE"):
+        if d in HEX_OPERAND:
             val = it.value
             canon = H.hex_of(v)
             H.check('value=canonical-lowercase-hex-of-the-word', sym.sym_eq(val, canon))
@@ -60,6 +60,12 @@ class IdToAsm(Case):
         else:
             H.check('no-operand', it.value is None)
         H.check('position-fields-are-the-synthetic-marker', it.begin == -1 and it.end == -1 and it.source == -1)
+
+
+# kinds whose operand is hexadecimal text in the assembly and which the front end stores as a number (ir_block.translateYulOpcodes:
+# dec_value = int(value, 16)): the item rebuilt from the specification must spell that number in hexadecimal again.  PUSH [tag] keeps
+# its (decimal) text, PUSHLIB carries a per-block index that rebuild_optimized_asm_block turns back into the library.
+HEX_OPERAND = ("PUSH", "PUSH data", "PUSHIMMUTABLE", "PUSH #[$]", "PUSH [$]")
 
 
 class IdSeqToAsm(Case):
